@@ -50,6 +50,7 @@ from armi.reactor.converters import blockConverters, meshConverters
 from armi.reactor.flags import Flags
 from armi.reactor.parameters import (
     NEVER,
+    SINCE_ANYTHING,
     SINCE_LAST_GEOMETRY_TRANSFORMATION,
     Category,
     ParamLocation,
@@ -1354,14 +1355,16 @@ class ThirdCoreHexToFullCoreChanger(GeometryChanger):
                     f"Modifying parameters in central assembly {a} to convert from 1/3 to full core"
                 )
 
-                if not self.listOfVolIntegratedParamsToScale:
-                    # populate the list with all parameters that are VOLUME_INTEGRATED
-                    (
-                        self.listOfVolIntegratedParamsToScale,
-                        _,
-                    ) = _generateListOfParamsToScale(
-                        self._sourceReactor.core, paramsToScaleSubset=[]
-                    )
+                # populate the list with all parameters that are VOLUME_INTEGRATED and have ever
+                # been assigned: the central assembly holds a third of each of them, whatever
+                # geometry change came before. Rebuild it on every conversion, so that a reused
+                # changer also scales parameters that were first assigned after its last one.
+                self.listOfVolIntegratedParamsToScale = (
+                    self._sourceReactor.core.getFirstBlock()
+                    .p.paramDefs.atLocation(ParamLocation.VOLUME_INTEGRATED)
+                    .since(SINCE_ANYTHING)
+                    .names
+                )
 
                 for b in a:
                     self._scaleBlockVolIntegratedParams(b, "up")
